@@ -22,14 +22,18 @@ use vcore::{Cfg, Check, Cx, Finding, Meta, SUB_SETUP, Tier, Value, Violation, js
 /// that upper-cases to two chars, 3-byte, 4-byte
 const SIGMA: [&str; 8] = ["a", "B", " ", "\n", "é", "ß", "漢", "𝄞"];
 
+/// longest receiver, in symbols (the design asks for 3 / 4; the thorough
+/// budget allows 5 for everything but `replace`)
 fn max_syms(tier: Tier) -> usize {
+    tier.pick(3, 5)
+}
+fn max_syms_replace(tier: Tier) -> usize {
     tier.pick(3, 4)
 }
 
 /// receivers: Σ^{<=L} plus every string of <= L tokens over
 /// {a, \n, \r\n, \r} that contains a carriage return
-fn receivers(tier: Tier) -> Vec<String> {
-    let l = max_syms(tier);
+fn receivers(l: usize) -> Vec<String> {
     let mut v = strings_over(&SIGMA, l);
     v.extend(strings_over(&["a", "\n", "\r\n", "\r"], l).into_iter().filter(|s| s.contains('\r')));
     // "\r" + "\n" and "\r\n" spell the same string: keep the first occurrence
@@ -42,7 +46,8 @@ fn receivers(tier: Tier) -> Vec<String> {
 fn domain(p: P, tier: Tier) -> Vec<V> {
     let l = max_syms(tier);
     match p {
-        P::Recv => strs(receivers(tier)),
+        P::Recv => strs(receivers(l)),
+        P::RecvReplace => strs(receivers(max_syms_replace(tier))),
         P::Str2 => {
             let mut v = strings_over(&SIGMA, 2);
             v.push("\r\n".into());
@@ -206,7 +211,7 @@ fn args_from_json(op_params: &[P], j: &Value) -> Option<Vec<V>> {
     let mut out = vec![];
     for (p, x) in op_params.iter().zip(a) {
         out.push(match p {
-            P::Recv | P::Str2 => V::Str(x.as_str()?.to_string()),
+            P::Recv | P::RecvReplace | P::Str2 => V::Str(x.as_str()?.to_string()),
             P::Idx | P::Rep | P::SplitN => V::Int(x.as_str()?.parse().ok()?),
             _ => return None,
         });
@@ -441,6 +446,7 @@ impl Check for C17 {
             bounds: json!({
                 "alphabet": SIGMA,
                 "receiver_max_symbols": max_syms(cfg.tier),
+                "receiver_max_symbols_replace": max_syms_replace(cfg.tier),
                 "second_string_max_symbols": 2,
                 "domain_sizes": Value::Object(sizes),
                 "builtins": names.len(),
